@@ -1,6 +1,6 @@
 //! Executes operations on the real crate, in-process, and reads back every observable.
 use crate::ops::{Obs, Op, Out, Role};
-use crate::tok::{self, Item, Tok, Tok12};
+use crate::tok::{self, Item, Tok, Tok12, C12};
 use mutringbuf::iterators::{ConsIter, Detached, ProdIter, WorkIter};
 use mutringbuf::{MRBIterator, MutRB};
 use std::panic::{catch_unwind, AssertUnwindSafe};
@@ -31,6 +31,14 @@ impl CopyApi for u64 {
     fn copy_item<B: MutRB<Item = u64>, const W: bool>(c: &mut ConsIter<B, W>, d: &mut u64) -> Option<()> { c.copy_item(d) }
     fn copy_slice<B: MutRB<Item = u64>, const W: bool>(c: &mut ConsIter<B, W>, d: &mut [u64]) -> Option<()> { c.copy_slice(d) }
     fn pop_dup<B: MutRB<Item = u64>, const W: bool>(c: &mut ConsIter<B, W>) -> Option<u64> { c.pop() }
+}
+
+impl CopyApi for C12 {
+    fn push_slice<B: MutRB<Item = C12>>(p: &mut ProdIter<B>, s: &[C12]) -> Option<()> { p.push_slice(s) }
+    fn push_slice_init<B: MutRB<Item = C12>>(p: &mut ProdIter<B>, s: &[C12]) -> Option<()> { p.push_slice_init(s) }
+    fn copy_item<B: MutRB<Item = C12>, const W: bool>(c: &mut ConsIter<B, W>, d: &mut C12) -> Option<()> { c.copy_item(d) }
+    fn copy_slice<B: MutRB<Item = C12>, const W: bool>(c: &mut ConsIter<B, W>, d: &mut [C12]) -> Option<()> { c.copy_slice(d) }
+    fn pop_dup<B: MutRB<Item = C12>, const W: bool>(c: &mut ConsIter<B, W>) -> Option<C12> { c.pop() }
 }
 
 impl CopyApi for Tok {
@@ -297,6 +305,13 @@ pub trait ClonePush: CopyApi {
 impl ClonePush for u64 {
     fn exec_clone_push<B: MutRB<Item = u64>>(p: &mut ProdIter<B>, _n: usize, given: &[u64], init: bool) -> (Option<()>, Vec<u64>) {
         let r = if init { p.push_slice_clone_init(given) } else { p.push_slice_clone(given) };
+        (r, vec![])
+    }
+}
+impl ClonePush for C12 {
+    fn exec_clone_push<B: MutRB<Item = C12>>(p: &mut ProdIter<B>, _n: usize, given: &[u64], init: bool) -> (Option<()>, Vec<C12>) {
+        let src: Vec<C12> = given.iter().map(|v| C12::make(*v)).collect();
+        let r = if init { p.push_slice_clone_init(&src) } else { p.push_slice_clone(&src) };
         (r, vec![])
     }
 }
